@@ -13,7 +13,25 @@
 
 #include "vsched.h"
 
+// Race pass (ThreadSanitizer under the serialising scheduler): the scheduler's hand-offs are invisible to the detector, so the
+// ONLY happens-before edges it sees are the ones the program under test really creates - announced here, operation by operation.
+#if defined(__SANITIZE_THREAD__)
+extern "C" { void __tsan_acquire(void *addr); void __tsan_release(void *addr); }
+#  define VQT_ACQ(p) __tsan_acquire((void *)(p))
+#  define VQT_REL(p) __tsan_release((void *)(p))
+#  define VQT_MODEL(p, n) vqt::registerModelRange((p), (n))
+#else
+#  define VQT_ACQ(p) ((void)0)
+#  define VQT_REL(p) ((void)0)
+#  define VQT_MODEL(p, n) ((void)0)
+#endif
+
 namespace vqt {
+// Race pass: model objects are embedded in objects of the code under test (a VMutex member, the VObject base of a worker) and
+// the model's own fields are touched by inlined model code that the detector attributes to the enclosing library function.
+// Every model object announces its address range; the ranges are written next to the detector's log when the execution ends
+// and reports on addresses inside them are the model's bookkeeping (serialised by the invisible baton), not the library's.
+void registerModelRange(const void *p, size_t n);
 
 class VThread;
 class VObject;
@@ -49,7 +67,7 @@ class VMutex
 {
 public:
     enum RecursionMode { NonRecursive, Recursive };
-    explicit VMutex(RecursionMode m = NonRecursive) : m_recursive(m == Recursive) { G().locks.insert(&st); }
+    explicit VMutex(RecursionMode m = NonRecursive) : m_recursive(m == Recursive) { G().locks.insert(&st); VQT_MODEL(this, sizeof *this); }
     ~VMutex() { G().locks.erase(&st); }
     void lock()
     {
@@ -61,6 +79,7 @@ public:
         vs::point("lock", [this, me] { return st.owner == -1 || (m_recursive && st.owner == me); });
         st.waiters--;
         st.owner = me; st.depth++;
+        VQT_ACQ(&st);
     }
     bool tryLock(int timeout = 0)
     {
@@ -68,7 +87,7 @@ public:
         int me = vs::self();
         if (timeout == 0) {
             vs::point("trylock");
-            if (st.owner == -1 || (m_recursive && st.owner == me)) { st.owner = me; st.depth++; return true; }
+            if (st.owner == -1 || (m_recursive && st.owner == me)) { st.owner = me; st.depth++; VQT_ACQ(&st); return true; }
             return false;
         }
         // timed: waits like lock(); the timeout fires only as a counted deviation (or when nothing else can run)
@@ -79,6 +98,7 @@ public:
         st.waiters--;
         if (to && !(st.owner == -1 || (m_recursive && st.owner == me))) { G().timedLockTimeouts++; return false; }
         st.owner = me; st.depth++;
+        VQT_ACQ(&st);
         return true;
     }
     bool try_lock() { return tryLock(); }
@@ -87,12 +107,13 @@ public:
     {
         if (!vs::active()) { if (st.depth > 0 && --st.depth == 0) st.owner = -1; return; }
         vs::point("unlock");
+        VQT_REL(&st);
         if (st.depth > 0 && --st.depth == 0) st.owner = -1;
     }
     bool isRecursive() const { return m_recursive; }
     int owner() const { return st.owner; }
     // for VWaitCondition: give the mutex up / take it back without a schedule point of its own
-    void releaseForWait() { st.depth = 0; st.owner = -1; }
+    void releaseForWait() { VQT_REL(&st); st.depth = 0; st.owner = -1; }
     LockState st;
 protected:
     bool m_recursive;
@@ -121,7 +142,7 @@ class VReadWriteLock
 {
 public:
     enum RecursionMode { NonRecursive, Recursive };
-    explicit VReadWriteLock(RecursionMode = NonRecursive) { st.kind = "rwlock"; G().locks.insert(&st); }
+    explicit VReadWriteLock(RecursionMode = NonRecursive) { st.kind = "rwlock"; G().locks.insert(&st); VQT_MODEL(this, sizeof *this); }
     ~VReadWriteLock() { G().locks.erase(&st); }
     void lockForRead() { lockImpl(false, -1); }
     void lockForWrite() { lockImpl(true, -1); }
@@ -131,6 +152,7 @@ public:
     {
         int me = vs::active() ? vs::self() : 0;
         if (vs::active()) vs::point("rw-unlock");
+        VQT_REL(&st);
         if (st.owner == me) { if (--st.depth <= 0) { st.owner = -1; st.depth = 0; } }
         else { auto it = st.readers.find(me); if (it != st.readers.end() && --it->second <= 0) st.readers.erase(it); }
     }
@@ -157,6 +179,7 @@ private:
             }
         }
         if (write) { st.owner = me; st.depth++; } else st.readers[me]++;
+        VQT_ACQ(&st);
         return true;
     }
     Q_DISABLE_COPY(VReadWriteLock)
@@ -188,17 +211,17 @@ private:
 class VSemaphore
 {
 public:
-    explicit VSemaphore(int n = 0) : m_avail(n) { }
-    void acquire(int n = 1) { if (vs::active()) vs::point("sem-acquire", [this, n] { return m_avail >= n; }); m_avail -= n; }
-    bool tryAcquire(int n = 1) { if (vs::active()) vs::point("sem-tryacquire"); if (m_avail < n) return false; m_avail -= n; return true; }
+    explicit VSemaphore(int n = 0) : m_avail(n) { VQT_MODEL(this, sizeof *this); }
+    void acquire(int n = 1) { if (vs::active()) vs::point("sem-acquire", [this, n] { return m_avail >= n; }); m_avail -= n; VQT_ACQ(this); }
+    bool tryAcquire(int n = 1) { if (vs::active()) vs::point("sem-tryacquire"); if (m_avail < n) return false; m_avail -= n; VQT_ACQ(this); return true; }
     bool tryAcquire(int n, int timeout)
     {
         if (timeout == 0) return tryAcquire(n);
         bool to = vs::active() ? vs::point("sem-acquire-timed", [this, n] { return m_avail >= n; }, false, timeout > 0) : false;
         if (to && m_avail < n) return false;
-        m_avail -= n; return true;
+        m_avail -= n; VQT_ACQ(this); return true;
     }
-    void release(int n = 1) { if (vs::active()) vs::point("sem-release"); m_avail += n; }
+    void release(int n = 1) { if (vs::active()) vs::point("sem-release"); VQT_REL(this); m_avail += n; }
     int available() const { if (vs::active()) vs::point("sem-available"); return m_avail; }
 private:
     int m_avail;
@@ -207,7 +230,7 @@ private:
 class VWaitCondition
 {
 public:
-    VWaitCondition() { }
+    VWaitCondition() { VQT_MODEL(this, sizeof *this); }
     bool wait(VMutex *m, unsigned long ms = ULONG_MAX)
     {
         if (!vs::active()) return true;
@@ -217,12 +240,13 @@ public:
         bool to = vs::point("cond-wait", [this, me] { return m_woken.count(me) > 0; }, false, ms != ULONG_MAX);
         m_waiting.erase(me);
         bool woken = m_woken.erase(me) > 0;
+        if (woken) VQT_ACQ(this);
         m->lock();
         return woken || !to;
     }
     bool wait(VMutex *m, QDeadlineTimer t) { return wait(m, t.isForever() ? ULONG_MAX : (unsigned long)t.remainingTime()); }
-    void wakeOne() { if (vs::active()) vs::point("cond-wake"); if (!m_waiting.empty()) { int t = *m_waiting.begin(); m_waiting.erase(m_waiting.begin()); m_woken.insert(t); } }
-    void wakeAll() { if (vs::active()) vs::point("cond-wake"); for (int t : m_waiting) m_woken.insert(t); m_waiting.clear(); }
+    void wakeOne() { if (vs::active()) vs::point("cond-wake"); VQT_REL(this); if (!m_waiting.empty()) { int t = *m_waiting.begin(); m_waiting.erase(m_waiting.begin()); m_woken.insert(t); } }
+    void wakeAll() { if (vs::active()) vs::point("cond-wake"); VQT_REL(this); for (int t : m_waiting) m_woken.insert(t); m_waiting.clear(); }
     void notify_one() { wakeOne(); }
     void notify_all() { wakeAll(); }
 private:
@@ -233,36 +257,37 @@ private:
 template<class T> class VAtomicInteger
 {
 public:
-    VAtomicInteger(T v = 0) : m_v(v) { }
-    VAtomicInteger(const VAtomicInteger &o) : m_v(o.m_v) { }
+    VAtomicInteger(T v = 0) : m_v(v) { VQT_MODEL(this, sizeof *this); }
+    VAtomicInteger(const VAtomicInteger &o) : m_v(o.m_v) { VQT_MODEL(this, sizeof *this); }
     VAtomicInteger &operator=(const VAtomicInteger &o) { m_v = o.m_v; return *this; }
-    T loadAcquire() const { vs::point("atomic-load"); return m_v; }
+    // relaxed operations order nothing: no edge announced for them (a hand-off that relies on a relaxed access is a race)
+    T loadAcquire() const { vs::point("atomic-load"); VQT_ACQ(this); return m_v; }
     T loadRelaxed() const { vs::point("atomic-load"); return m_v; }
-    T load() const { vs::point("atomic-load"); return m_v; }
-    void storeRelease(T v) { vs::point("atomic-store"); m_v = v; }
+    T load() const { vs::point("atomic-load"); VQT_ACQ(this); return m_v; }
+    void storeRelease(T v) { vs::point("atomic-store"); VQT_REL(this); m_v = v; }
     void storeRelaxed(T v) { vs::point("atomic-store"); m_v = v; }
-    void store(T v) { vs::point("atomic-store"); m_v = v; }
-    T fetchAndAddOrdered(T d) { vs::point("atomic-rmw"); T o = m_v; m_v += d; return o; }
-    T fetchAndSubOrdered(T d) { vs::point("atomic-rmw"); T o = m_v; m_v -= d; return o; }
+    void store(T v) { vs::point("atomic-store"); VQT_REL(this); m_v = v; }
+    T fetchAndAddOrdered(T d) { vs::point("atomic-rmw"); VQT_ACQ(this); VQT_REL(this); T o = m_v; m_v += d; return o; }
+    T fetchAndSubOrdered(T d) { vs::point("atomic-rmw"); VQT_ACQ(this); VQT_REL(this); T o = m_v; m_v -= d; return o; }
     T fetchAndAddRelaxed(T d) { return fetchAndAddOrdered(d); }
     T fetchAndAddAcquire(T d) { return fetchAndAddOrdered(d); }
     T fetchAndAddRelease(T d) { return fetchAndAddOrdered(d); }
     T fetchAndSubRelaxed(T d) { return fetchAndSubOrdered(d); }
     T fetchAndSubAcquire(T d) { return fetchAndSubOrdered(d); }
     T fetchAndSubRelease(T d) { return fetchAndSubOrdered(d); }
-    T fetchAndStoreOrdered(T n) { vs::point("atomic-rmw"); T o = m_v; m_v = n; return o; }
+    T fetchAndStoreOrdered(T n) { vs::point("atomic-rmw"); VQT_ACQ(this); VQT_REL(this); T o = m_v; m_v = n; return o; }
     T fetchAndStoreRelaxed(T n) { return fetchAndStoreOrdered(n); }
     T fetchAndStoreAcquire(T n) { return fetchAndStoreOrdered(n); }
     T fetchAndStoreRelease(T n) { return fetchAndStoreOrdered(n); }
-    T fetchAndOrOrdered(T d) { vs::point("atomic-rmw"); T o = m_v; m_v |= d; return o; }
-    T fetchAndAndOrdered(T d) { vs::point("atomic-rmw"); T o = m_v; m_v &= d; return o; }
-    bool testAndSetOrdered(T e, T n) { vs::point("atomic-rmw"); if (m_v == e) { m_v = n; return true; } return false; }
-    bool testAndSetOrdered(T e, T n, T &cur) { vs::point("atomic-rmw"); cur = m_v; if (m_v == e) { m_v = n; return true; } return false; }
+    T fetchAndOrOrdered(T d) { vs::point("atomic-rmw"); VQT_ACQ(this); VQT_REL(this); T o = m_v; m_v |= d; return o; }
+    T fetchAndAndOrdered(T d) { vs::point("atomic-rmw"); VQT_ACQ(this); VQT_REL(this); T o = m_v; m_v &= d; return o; }
+    bool testAndSetOrdered(T e, T n) { vs::point("atomic-rmw"); VQT_ACQ(this); VQT_REL(this); if (m_v == e) { m_v = n; return true; } return false; }
+    bool testAndSetOrdered(T e, T n, T &cur) { vs::point("atomic-rmw"); VQT_ACQ(this); VQT_REL(this); cur = m_v; if (m_v == e) { m_v = n; return true; } return false; }
     bool testAndSetRelaxed(T e, T n) { return testAndSetOrdered(e, n); }
     bool testAndSetAcquire(T e, T n) { return testAndSetOrdered(e, n); }
     bool testAndSetRelease(T e, T n) { return testAndSetOrdered(e, n); }
-    bool ref() { vs::point("atomic-rmw"); return ++m_v != 0; }
-    bool deref() { vs::point("atomic-rmw"); return --m_v != 0; }
+    bool ref() { vs::point("atomic-rmw"); VQT_ACQ(this); VQT_REL(this); return ++m_v != 0; }
+    bool deref() { vs::point("atomic-rmw"); VQT_ACQ(this); VQT_REL(this); return --m_v != 0; }
     operator T() const { return loadAcquire(); }
     VAtomicInteger &operator=(T v) { storeRelease(v); return *this; }
     T operator++() { return fetchAndAddOrdered(1) + 1; }
@@ -279,19 +304,19 @@ using VAtomicInt = VAtomicInteger<int>;
 template<class T> class VAtomicPointer
 {
 public:
-    VAtomicPointer(T *v = nullptr) : m_v(v) { }
-    T *loadAcquire() const { vs::point("atomic-load"); return m_v; }
+    VAtomicPointer(T *v = nullptr) : m_v(v) { VQT_MODEL(this, sizeof *this); }
+    T *loadAcquire() const { vs::point("atomic-load"); VQT_ACQ(this); return m_v; }
     T *loadRelaxed() const { vs::point("atomic-load"); return m_v; }
-    T *load() const { vs::point("atomic-load"); return m_v; }
-    void storeRelease(T *v) { vs::point("atomic-store"); m_v = v; }
+    T *load() const { vs::point("atomic-load"); VQT_ACQ(this); return m_v; }
+    void storeRelease(T *v) { vs::point("atomic-store"); VQT_REL(this); m_v = v; }
     void storeRelaxed(T *v) { vs::point("atomic-store"); m_v = v; }
-    void store(T *v) { vs::point("atomic-store"); m_v = v; }
-    bool testAndSetOrdered(T *e, T *n) { vs::point("atomic-rmw"); if (m_v == e) { m_v = n; return true; } return false; }
-    bool testAndSetOrdered(T *e, T *n, T *&cur) { vs::point("atomic-rmw"); cur = m_v; if (m_v == e) { m_v = n; return true; } return false; }
+    void store(T *v) { vs::point("atomic-store"); VQT_REL(this); m_v = v; }
+    bool testAndSetOrdered(T *e, T *n) { vs::point("atomic-rmw"); VQT_ACQ(this); VQT_REL(this); if (m_v == e) { m_v = n; return true; } return false; }
+    bool testAndSetOrdered(T *e, T *n, T *&cur) { vs::point("atomic-rmw"); VQT_ACQ(this); VQT_REL(this); cur = m_v; if (m_v == e) { m_v = n; return true; } return false; }
     bool testAndSetRelaxed(T *e, T *n) { return testAndSetOrdered(e, n); }
     bool testAndSetAcquire(T *e, T *n) { return testAndSetOrdered(e, n); }
     bool testAndSetRelease(T *e, T *n) { return testAndSetOrdered(e, n); }
-    T *fetchAndStoreOrdered(T *n) { vs::point("atomic-rmw"); T *o = m_v; m_v = n; return o; }
+    T *fetchAndStoreOrdered(T *n) { vs::point("atomic-rmw"); VQT_ACQ(this); VQT_REL(this); T *o = m_v; m_v = n; return o; }
     T *fetchAndStoreRelaxed(T *n) { return fetchAndStoreOrdered(n); }
     T *fetchAndStoreAcquire(T *n) { return fetchAndStoreOrdered(n); }
     T *fetchAndStoreRelease(T *n) { return fetchAndStoreOrdered(n); }
@@ -440,8 +465,9 @@ struct VMetaObject : ::QMetaObject {     // derives from the real one so that Q_
         if (type == Qt::BlockingQueuedConnection && !same) {
             auto done = std::make_shared<bool>(false);
             vs::point("post");
-            postCall(ctx->thread(), ctx, [f, done]() mutable { f(); *done = true; });
+            postCall(ctx->thread(), ctx, [f, done]() mutable { f(); VQT_REL(done.get()); *done = true; });
             vs::point("blocking-invoke", [done] { return *done; });
+            VQT_ACQ(done.get());
             return true;
         }
         vs::point("post");
